@@ -34,7 +34,7 @@ pub fn foreign(udaf: &Arc<AggregateUDF>) -> Result<AggregateUDF, String> {
 }
 
 pub fn registry() -> Vec<Arc<AggregateUDF>> {
-    let mut v = datafusion::execution::session_state::SessionStateDefaults::default_aggregate_functions();
+    let mut v = datafusion::execution::SessionStateDefaults::default_aggregate_functions();
     v.sort_by(|a, b| a.name().cmp(b.name()));
     v.dedup_by(|a, b| a.name() == b.name());
     v
@@ -423,9 +423,6 @@ pub fn compare_sequence(native: &AggregateUDF, foreign: &AggregateUDF, s: &Setup
                 |_| "groups accumulator".into(),
             );
             let Some((mut gn, mut gf)) = made else { break };
-            if gn.supports_convert_to_state() != gf.supports_convert_to_state() {
-                findings.push(Finding { symptom: "supports-convert-to-state-differs".into(), what: format!("supports_convert_to_state: native {}, foreign {}", gn.supports_convert_to_state(), gf.supports_convert_to_state()) });
-            }
             let groups: Vec<usize> = (0..n).map(|i| i % 2).collect();
             let total = 2usize.min(n.max(1));
             let groups: Vec<usize> = groups.into_iter().map(|g| g.min(total - 1)).collect();
@@ -443,7 +440,7 @@ pub fn compare_sequence(native: &AggregateUDF, foreign: &AggregateUDF, s: &Setup
             {
                 continue;
             }
-            if gn.supports_convert_to_state() {
+            {
                 st.ops += 2;
                 cmp(
                     &mut findings,
